@@ -18,7 +18,7 @@ import (
 func c02r5(c *Ctx, r *Report) {
 	l := c.L
 	r.rule("C02-R5", "E (sibling search sites) + D (provenance)", "P1",
-		"in every function of package algo that searches raw input bytes for a non-constant byte b (bytes.IndexByte / bytes.LastIndexByte / an element comparison), there is a sibling search in the same function for a value derived from b-32 (the upper-case variant)",
+		"in every function of package algo that searches raw input bytes for a non-constant byte b (bytes.IndexByte / bytes.LastIndexByte / an element comparison), there is a sibling search in the same function for a value derived from b-32 (the upper-case variant), and where the base search is a call, the sibling is not control dependent on its result (other than through a test of that result against 0: found at the first position)",
 		"case-insensitive matching misses lines in which the letter occurs only in upper case at the position that bounds the search window")
 	isByte := func(t types.Type) bool {
 		b, ok := t.Underlying().(*types.Basic)
@@ -73,6 +73,7 @@ func c02r5(c *Ctx, r *Report) {
 		if len(sites) == 0 {
 			continue
 		}
+		var cds map[*ssa.BasicBlock]map[ssa.Value]bool
 		// variant-of: values whose definition contains (x - 32)
 		folded := func(v ssa.Value) []ssa.Value {
 			var bases []ssa.Value
@@ -98,6 +99,37 @@ func c02r5(c *Ctx, r *Report) {
 			}
 			key := fmt.Sprintf("%s:search for %s has an upper-case sibling", relName(fn), s.v.Name())
 			r.check(paired, key, s.in.Pos(), fn, "the bytes are also searched for the value - 32", "only the lower-case byte is searched for: an upper-case occurrence is not seen")
+			// the sibling runs whatever the first search found: the EARLIER of the two occurrences bounds the
+			// window, so "only if the lower-case letter was not found" is not enough (round-7 mutant C03a7)
+			if base, isVal := s.in.(*ssa.Call); isVal && paired {
+				if cds == nil {
+					cds = controlConds(fn)
+				}
+				for _, o := range sites {
+					isSib := false
+					for _, b2 := range folded(o.v) {
+						if b2 == s.v {
+							isSib = true
+						}
+					}
+					if !isSib {
+						continue
+					}
+					dep := ""
+					for cond := range cds[o.in.Block()] {
+						// "found at the very first position" is the one outcome after which nothing earlier can exist
+						if bo, ok := cond.(*ssa.BinOp); ok && (bo.Op == token.EQL || bo.Op == token.NEQ) && (isConstInt(bo.Y, 0) || isConstInt(bo.X, 0)) {
+							continue
+						}
+						for w := range backwardSlice(cond, nil, nil) {
+							if w == ssa.Value(base) {
+								dep = l.pos(cond.Pos())
+							}
+						}
+					}
+					r.check(dep == "", key+" that runs unconditionally", o.in.Pos(), fn, "the upper-case search does not depend on the outcome of the lower-case search", fmt.Sprintf("the upper-case search is control dependent on the result of the lower-case search (condition at %s): when both cases occur, the later one can win", dep))
+				}
+			}
 		}
 	}
 	r.floor("byte searches for a pattern character", nBase, 2)
